@@ -65,6 +65,13 @@ def alias_cases():
         add("special-%s-via-symlinked-dir" % kind, base + [N, L("here", ".")], ["p", "here/p"], ["p"])
         add("special-%s-hardlink" % kind, base + [N, H("hp", "p")], ["p", "hp"], ["p"])
         add("special-%s-in-T-respelled-dir" % kind, [D("d"), F("d/f"), dict(N, p="d/p"), D("other"), F("other/keep", 99, 13)], ["-T", "d", "./d"], ["d/f", "d/p"], True)
+    # bystanders: what an existing destination symlink points to must survive whatever is mapped onto the link
+    for kind in ("fifo", "sock", "chr", "l", "d"):
+        N = {"p": "src2/p", "k": kind, "mode": 0o640}
+        if kind == "chr": N["rdev"] = [1, 3]
+        if kind == "l": N = {"p": "src2/p", "k": "l", "target": "nowhere"}
+        extra_ = [F("src2/p/inner", 5, 3)] if kind == "d" else []
+        add("bystander-behind-link-%s" % kind, base + [D("src2"), N] + extra_ + [D("dst"), D("dst/src2"), L("dst/src2/p", "../../other/keep")], ["src2", "dst"], ["other/keep"], True)
     add("link-dot-slash", base + [F("f"), L("l", "f")], ["l", "./l"], ["l", "f"])
     add("link-in-T-respelled-dir", [D("d"), F("d/f"), L("d/l", "f"), D("other"), F("other/keep", 99, 13)], ["-T", "d", "./d"], ["d/f", "d/l"], True)
     add("two-sources-one-alias", base + [F("f"), D("dst"), L("dst/f", "../f")], ["other/keep", "f", "dst"], ["f", "other/keep"])
